@@ -2,8 +2,9 @@
 (* Mode B generator for C14: operations on pipeline definitions from a pool.
      sum      operands (sequence of pool indices) + a bracketing of '+'
      resolve  named pipelines + the order in which they are passed to the resolver
-     backend  (class pipeline, user pipeline, output-format pipeline)
-     reuse    a + b, then again a + b with the very same objects / a used alone afterwards
+     backend  (class pipeline, user pipeline, output-format pipeline); backend_switch: format changed between calls
+     reuse    a + b, then again a + b with the very same objects / a used alone afterwards /
+              the same names (objects, or definitions a generator loads each time) resolved twice
    Each case carries the reference definition the spec demands (concatenation order).   *)
 EXTENDS PipelineCompose, Json, IOUtils, Randomization, TLC
 VARIABLE x
@@ -24,12 +25,16 @@ ResolveCases == UNION {{[op |-> "resolve", operands |-> s, tree |-> Leaf(1), ref
                      : s \in Seqs(n)} : n \in 2..(IF Quick THEN 3 ELSE 4)}
 BackendCases == {[op |-> "backend", operands |-> s, tree |-> Leaf(1), ref |-> SumSeq([i \in 1..3 |-> Pool[s[i]]])]
                      : s \in (IF Quick THEN RandomSubset(40, Seqs(3)) ELSE Seqs(3))}
+\* the same backend object asked for another output format through convert_rule() after a conversion in the
+\* default format: class pipeline, user pipeline, then the pipeline of the format that is ASKED FOR
+SwitchCases == {[op |-> "backend_switch", operands |-> s, tree |-> Leaf(1), ref |-> SumSeq([i \in 1..3 |-> Pool[s[i]]])]
+                     : s \in (IF Quick THEN RandomSubset(40, Seqs(3)) ELSE Seqs(3))}
 ReuseCases == {[op |-> o, operands |-> s, tree |-> Leaf(1),
                 ref |-> IF o = "reuse_operand" THEN Pool[s[1]]
-                        ELSE IF o = "resolve_twice" THEN Resolve([i \in 1..2 |-> Pool[s[i]]])
+                        ELSE IF o \in {"resolve_twice", "resolve_defs_twice"} THEN Resolve([i \in 1..2 |-> Pool[s[i]]])
                         ELSE SumSeq([i \in 1..2 |-> Pool[s[i]]])]
-                     : s \in Seqs(2), o \in {"reuse_sum_again", "reuse_first_sum", "reuse_operand", "resolve_twice"}}
-ASSUME LET S == SetToSeq(SumCases \cup ResolveCases \cup BackendCases \cup ReuseCases)
+                     : s \in Seqs(2), o \in {"reuse_sum_again", "reuse_first_sum", "reuse_operand", "resolve_twice", "resolve_defs_twice"}}
+ASSUME LET S == SetToSeq(SumCases \cup ResolveCases \cup BackendCases \cup SwitchCases \cup ReuseCases)
        IN  ndJsonSerialize(IOEnv.VERIF_OUT, [i \in 1..Len(S) |-> [id |-> i, pool |-> Pool] @@ S[i]])
 Init == x = 0
 Next == UNCHANGED x
